@@ -27,8 +27,8 @@ prefix is `user + DBDELIMITER` -/
 example : Gen.FactsC16.keyShapes = ["U+D x2", "U+D+C x4"] := by decide
 /-- every path below USERCOLSDIR is `Join(root, USERCOLSDIR, user, collection[, shard[, file]])` -/
 example : Gen.FactsC16.joinShapes = ["ROOT,DIR", "ROOT,DIR,U,C", "ROOT,DIR,U,C,S", "ROOT,DIR,U,C,S,\"sharddb.bbolt\""] := by decide
-example : (Gen.FactsC16.v2IdMin, Gen.FactsC16.v2IdMax, Gen.FactsC16.v2IdRanges) = (3, 24, [(97, 122), (48, 57)]) := by decide
-example : (Gen.FactsC16.v1IdMin, Gen.FactsC16.v1IdMax, Gen.FactsC16.v1IdRanges) = (3, 16, [(97, 122), (65, 90), (48, 57)]) := by decide
+example : (Gen.FactsC16.v2IdMin, Gen.FactsC16.v2IdMax, Gen.FactsC16.v2IdRanges) = (3, 24, [(48, 57), (97, 122)]) := by decide
+example : (Gen.FactsC16.v1IdMin, Gen.FactsC16.v1IdMax, Gen.FactsC16.v1IdRanges) = (3, 16, [(48, 57), (65, 90), (97, 122)]) := by decide
 example : (Gen.FactsC16.v2UriMin, Gen.FactsC16.v2UriMax) = (3, 24) := by decide
 /-- all the state that requests share inside a node: the node database and the shard manager (the
 model's `Node.db` / `Node.fs`), the configuration, the RPC client cache (keyed by server name) and
@@ -41,9 +41,7 @@ example : Gen.FactsC16.nodeFields =
 their own name and the RPC handler of the same name — no state of the node (`lookup` below is one
 atomic read of the node database for exactly the key `user/collection`) -/
 example : Gen.FactsC16.actionUses =
-    ["CreateCollection: MyHostname,RPCCreateCollection,Servers", "ListCollections: MyHostname,RPCListCollections,Servers",
-     "GetCollection: MyHostname,RPCGetCollection,Servers",
-     "DeleteCollection: MyHostname,RPCDeleteCollection,RPCDeleteCollectionShards,Servers,logger"] := by decide
+    ["CreateCollection: MyHostname,RPCCreateCollection,Servers", "ListCollections: MyHostname,RPCListCollections,Servers", "GetCollection: MyHostname,RPCGetCollection,Servers", "DeleteCollection: MyHostname,RPCDeleteCollection,RPCDeleteCollectionShards,Servers"] := by decide
 
 /-- "userCollections" as bytes -/
 def userColsDirBytes : Bytes :=
